@@ -1,5 +1,6 @@
 SPECIFICATION Spec
 CONSTANTS
+  RejectIP = TRUE
   Family = "obs"
   MaxLen = 4
 
